@@ -240,6 +240,7 @@ def gen_thr(rng, d):
     vals = [dy(rng, -8, 24, 16) for _ in range(npx)]
     mask = None if rng.random() < 0.4 else [rng.random() < 0.6 for _ in range(npx)]
     het = rng.random() < 0.6
+    as_float = mask is None and rng.random() < 0.3  # return_float only changes the dtype of the unmasked result
     lab = np.array([label_values[l] for l in labs]).reshape(shape)
     sig = np.array([float(v) for v in vals]).reshape(shape)
     if het:
@@ -250,12 +251,12 @@ def gen_thr(rng, d):
                 lo[i] = rng.choice(vals)
         hi = None if rng.random() < 0.3 else [rng.choice([l + dy(rng, 0, 16, 16), rng.choice(vals)]) for l in lo]
         line = f"thr het {L} {fmts(lo)} " + ("none" if hi is None else "some " + fmts(hi))
-        model = call(d.StaticThresholdModel, [float(x) for x in lo], None if hi is None else [float(x) for x in hi], lab)
+        model = call(d.StaticThresholdModel, [float(x) for x in lo], None if hi is None else [float(x) for x in hi], lab, as_float)
     else:
         lo = rng.choice([dy(rng, 0, 8, 16), rng.choice(vals)])
         hi = rng.choice([None, lo + dy(rng, 0, 16, 16), rng.choice(vals)])
         line = f"thr hom {fmt(lo)} {'none' if hi is None else fmt(hi)}"
-        model = call(d.StaticThresholdModel, float(lo), None if hi is None else float(hi))
+        model = call(d.StaticThresholdModel, float(lo), None if hi is None else float(hi), None, as_float)
     line += " | " + ("nomask" if mask is None else "mask " + " ".join("1" if b else "0" for b in mask))
     line += f" | {npx} " + " ".join(f"{l} {fmt(v)}" for l, v in zip(labs, vals))
     if isinstance(model, Raised):
@@ -265,7 +266,10 @@ def gen_thr(rng, d):
         impl = repr(out)
     else:
         out = np.asarray(out)
-        impl = "!shape" if out.shape != shape else " ".join("1" if b else "0" for b in out.ravel())
+        if as_float and out.dtype.kind != "f" or not as_float and out.dtype != bool or not np.all((out == 0) | (out == 1)):
+            impl = "!dtype"
+        else:
+            impl = "!shape" if out.shape != shape else " ".join("1" if b else "0" for b in out.ravel())
     # the statement itself, evaluated directly
     want = []
     for i, (l, v) in enumerate(zip(labs, vals)):
